@@ -171,18 +171,77 @@ def run_case(case, col=None):
 
 
 def replay(case):
+    if case.get('long'):
+        return [dict(f, case=ir.to_jsonable(case), obs=ir.to_jsonable(f.get('obs'))) for f in run_long(case)]
+    return _replay(case)
+
+
+def _replay(case):
     return [dict(f, case=ir.to_jsonable(case), obs=ir.to_jsonable(f.get('obs'))) for f in run_case(case)]
 
 
+def long_case(n_elems, elem_len, cuts):
+    """An encoding longer than the read-ahead buffer of the caching wrapper: SEQUENCE OF OCTET STRING in the indefinite form
+    (primitive elements, so that known finding F09 - definite-length nested elements behind the wrapper - stays out), cut at
+    a few points beyond 8192 octets."""
+    T = ir.mk('SEQUENCEOF', of=ir.mk('OCTETSTRING'))
+    v = [bytes([i % 251]) * elem_len for i in range(n_elems)]
+    return {'T': T, 'enc': x690.cer(T, v), 'codec': 'BER', 'form': 'CER', 'long': True, 'cuts': cuts}
+
+
+def run_long(case, col=None):
+    T, e, codec = case['T'], case['enc'], case['codec']
+    fails = []
+    sch = build.schema(T)
+    kinds = None
+    for k in case['cuts']:
+        k = min(max(k, 1), len(e) - 1)
+        prefix = e[:k]
+        pres = []
+        op = streams.PipeFeed()
+        op.feed_bytes(prefix)
+        d = lib.decode(codec, op, sch)
+        res = None
+        if d.ok:
+            res = ('value', 'returned a value for the prefix')
+        elif d.status == 'leak':
+            res = ('leak', d.brief())
+        elif not isinstance(d.exc, error.SubstrateUnderrunError):
+            res = ('malformed', 'reported %s' % d.brief())
+        pres.append(('long-oneshot-openpipe-guided', res))
+        for pname, make in (('seekable', streams.SeekableFeed), ('pipe', streams.PipeFeed)):
+            pres.append(('long-stream-%s-guided' % pname, stream_run(codec, make, prefix, sch)))
+            pres.append(('long-stream-%s2-guided' % pname, stream_run(codec, make, prefix, sch, first=8190)))
+        for sub, res in pres:
+            if col is not None:
+                col.case(e[:64] + repr((len(e), k, sub)).encode(), True, ['long', sub.split('-')[1] + '-' + sub.split('-')[2]],
+                         sample={'type': ir.show_type(T), 'encoding_octets': len(e), 'cut': k, 'presentation': sub})
+            if res is not None:
+                fails.append({'sub': sub, 'kind': res[0], 'sig': 'long', 'msg': '%s | k=%d of a %d-octet encoding' % (res[1], k, len(e)), 'obs': {'k': k, 'cut': 'long'}})
+    return fails
+
+
 def run_shard(desc, seed, tier, col):
-    def body(ev):
+    from hypothesis import strategies as st
+
+    def body(x):
+        ev, lng = x
+        if lng is not None:
+            case = long_case(*lng)
+            col.begin(case)
+            for f in run_long(case, col):
+                col.fail(f['sub'], f['kind'], f['msg'], dict(case, cuts=[f['obs']['k']]), sig=f['sig'], obs=f.get('obs'))
+            return
         form = ev['forms'][0]
         case = {'T': ev['T'], 'enc': ev['encs'][0], 'codec': {'DER': 'DER', 'CER': 'CER'}.get(form, 'BER'), 'form': form}
         col.begin(case)
         for f in run_case(case, col):
             col.fail(f['sub'], f['kind'], f['msg'], dict(case, only=f['obs']['k']), sig=f['sig'], obs=f.get('obs'))
 
-    harness.run_given(gen.encoded_values(CFG, 1, 1), body, seed, desc['examples'], col)
+    longs = st.one_of(st.none(), st.none(), st.none(), st.none(), st.none(), st.none(), st.none(), st.none(), st.none(), st.none(), st.none(),
+                      st.tuples(st.sampled_from([300, 600]), st.sampled_from([30, 60]),
+                                st.lists(st.integers(8193, 19000), min_size=3, max_size=8)))
+    harness.run_given(st.tuples(gen.encoded_values(CFG, 1, 1), longs), body, seed, desc['examples'], col)
 
 
 FINDINGS = {}
